@@ -390,6 +390,13 @@ mtbl_fileset_reload_now(struct mtbl_fileset *f)
 #endif
 	my_gettime(clock, &now);
 
+	/* if our merger is from an out of date fileset, reinitialize it. */
+	if ((f->fs_last.tv_sec != f->shared_fs->fs_last.tv_sec) ||
+	    (f->fs_last.tv_nsec != f->shared_fs->fs_last.tv_nsec)) {
+		fs_reinit_merger(f);
+		f->fs_last = f->shared_fs->fs_last;
+	}
+
 	f->shared_fs->n_loaded = 0;
 	f->shared_fs->n_unloaded = 0;
 	assert(f->shared_fs->my_fs != NULL);
